@@ -1,4 +1,5 @@
 """C16 - reading never writes: observers leave documents, identities and indexes untouched."""
+import itertools
 import copy
 import io
 import json
@@ -239,6 +240,9 @@ class C16(core.Check):
     def _run(self, case):
         """-> (violation text or None, per-op results, reuse outcome)"""
         p = self._mk(case['kind'])
+        if case['kind'] == 'indexed' and len(case['toks']) % 2 == 0:
+            # half of the indexed documents also carry an attribute index (a function of the case, so that replays agree)
+            p.addIndexOnAttribute('data-x')
         p.parseStr(c02.render(case['toks'], None))
         q = self._mk(case['kind'])
         q.parseStr(c02.render(case['other'], None))
@@ -254,6 +258,15 @@ class C16(core.Check):
                 return 'observer #%d %s/%s changed the document it observed: %s' % (i, op[0], op[1], self._diff(before, after)), results, None
             if after_q != before_q:
                 return 'observer #%d %s/%s changed an unrelated document' % (i, op[0], op[1]), results, None
+        # fixed battery after the random history: the multi-value attribute queries with every pair of values (two values with hits are
+        # what makes a query merge index lists), on every kind of parser; not part of the results compared with the model
+        for attrn, vals in (('data-x', c06.DATAVALS), ('name', c06.NAMEVALS + ['zz'])):
+            for v1, v2 in itertools.permutations(vals, 2):
+                p.getElementsWithAttrValues(attrn, [v1, v2])
+                p.getElementsByAttr(attrn, v1)
+                if self.snapshot(p) != before:
+                    return ('getElementsWithAttrValues(%r, %r) / getElementsByAttr(%r, %r) changed the document it observed: %s'
+                            % (attrn, [v1, v2], attrn, v1, self._diff(before, self.snapshot(p)))), results, None
         # the document the caller still holds (its root and elements) when the parser goes on to parse something else
         old_root = p.getRoot()
         old_els = pc.preorder(old_root)
